@@ -99,13 +99,25 @@ def python_part(run, i):
     perms = list(itertools.permutations(range(nf))) if nf <= 4 else [tuple(r.sample(range(nf), nf)) for _ in range(12)]
     if run.quick and len(perms) > 8:
         perms = r.sample(perms, 8)
-    for perm in perms:
+    for pi, perm in enumerate(perms):
         if list(perm) == list(range(nf)):
             continue
         twin = permuted(decls, r, focus["name"], perm)
         text = S.print_schema(twin)
         case = {"schema": base_text, "twin": text, "permutation": list(perm), "focus": focus["name"]}
-        res = CC.parse(text)
+        if pi % 3 == 1:
+            # the twin is made by permuting the field LISTS of a parsed tree in place (what a program that
+            # builds or edits a schema object does), not by re-parsing permuted text
+            res = CC.parse(base_text)
+            if res.is_ok():
+                by_name = {d["name"]: [f["name"] for f in d["fields"]] for d in twin if d["kind"] == "struct"}
+                for st in res.unwrap().structs:
+                    order = by_name[st.name]
+                    st.fields.sort(key=lambda f: order.index(f.name))
+            case["twin_made_by"] = "permuting the field lists of the parsed tree in place"
+            run.count("twins_made_on_the_tree_object")
+        else:
+            res = CC.parse(text)
         if res.is_err():
             run.violation("front end rejected the permuted twin: %r" % (res.err(),), case)
             return
